@@ -325,7 +325,7 @@ func enrichScenario(rnd *hx.Rand, count func(string)) *scenario {
 		ne = 6 + rnd.Intn(9)
 	}
 	for i := 0; i < ne; i++ {
-		e := enricherS{kind: 1 + rnd.Intn(3), fail: rnd.Chance(1, 6), sees: rnd.Chance(1, 2)}
+		e := enricherS{kind: 1 + rnd.Intn(3), fail: rnd.Chance(1, 6), sees: rnd.Chance(1, 2), ec: rnd.Intn(nErrClasses)}
 		for k := rnd.Intn(4); k > 0; k-- {
 			e.msgs = append(e.msgs, rnd.Intn(50))
 		}
